@@ -248,13 +248,23 @@ var c06sDirected = []string{
 	"wrPwsP",     // ... next write is appended behind the captured frames; resume from there
 	"wrPwPsP",    // ... and an attempt in between fails
 	"WrPsWPwP",   // page-heavy, reset, then a normal one
-	"wrPrswPSP",  // second reader reads the database file only (slot 0) while the first leaves: WAL reset under a reader
+	"wrPrswPsP",  // second reader reads the database file only (slot 0) while the first leaves: WAL reset under a reader
 	"wrPPsP",     // attempt with nothing new while armed
 	"wrwPsPwP",   // partial (reader in the middle of the WAL)
 	"WrWPswPwP",  // partial with page-heavy writes
 	"wrPswrPswP", // two resets in a row
 	"wrPwrsPwsP", // all moved but not truncated twice in a row, then an appended write
 	"wrPwrsPswP", // ... then a reset
+	// a busy attempt after an untruncated one in the same WAL generation, blocked by a later
+	// reader (small writes touch a different page each, so a lost transaction shows)
+	"wrPwrswPsP",
+	"WrPwrswPsP",
+	"wrPWrswPsP",
+	"wrPwrsWPsP",
+	"wrPwwrswPsP",
+	"wrPwrswPwPsP",
+	"wrPwrswPrswPsP",
+	"wrPwrswPswP",
 }
 
 func TestVerif_C06_store(t *testing.T) {
@@ -348,6 +358,13 @@ func TestVerif_C06_store(t *testing.T) {
 		}
 		r.Note("depth %d: %d histories run, %d new states", d, len(hs), len(next))
 		frontier = next
+	}
+	for _, d := range c06sDirected {
+		for i := 0; i < len(d); i++ {
+			if !strings.ContainsRune(c06sAlphabet, rune(d[i])) || !c06sEnabled(d[:i], d[i]) {
+				t.Fatalf("c06 harness: directed history %q is not executable at position %d", d, i)
+			}
+		}
 	}
 	var dir []string
 	for _, h := range c04Prefixes(c06sDirected) {
